@@ -255,12 +255,29 @@ func C16Scenario() *Scenario {
 		t := w.T
 		ds := NewDecoratorSetup(w, DGenOpts{MaxDecorators: 2, PlainOwner: true})
 		b := &EnvBudget{Left: 4 + t.Pick(8, "envbudget")}
+		cfgChanges := t.Pick(3, "cfgchanges")
 		w.EnvOps = func(w *World) []EnvOp {
 			var ops []EnvOp
 			ops = append(ops, ds.TargetEdits(b)...)
 			ops = append(ops, ds.TargetEdits(b)...)
 			ops = append(ops, ds.AttachmentChaos(b)...)
 			ops = append(ops, GCOps(w)...)
+			if b.Left > 0 && cfgChanges > 0 && w.Proc != nil && !w.Proc.ReconcileBusy() {
+				// the finalize hook is added to / removed from a DecoratorController later:
+				// the hosted controller restarts, targets may carry a leftover finalizer
+				for _, cfg := range ds.Cfgs {
+					cfg := cfg
+					ops = append(ops, EnvOp{"config-toggle-finalize-hook " + cfg.Name, func(w *World) {
+						b.take()
+						cfgChanges--
+						cfg.Finalize = !cfg.Finalize
+						cfg.Ver++
+						EditObject(w, ResDecoratorCtl, "", cfg.Name, "config", func(o Object) { o["spec"] = cfg.Object()["spec"] })
+						w.Proc.Reconcile("decorator", cfg.Name)
+						w.Probe("c16:finalize-hook-toggled")
+					}})
+				}
+			}
 			return ops
 		}
 		pol := lagPolicy(t)
